@@ -33,12 +33,16 @@ def run(tier):
     else:
         j = json.load(open(outp))
         for b in j['bad']:
+            if b['cls'].startswith('extra_'):
+                chk.beyond(f"Dimensions::{b['form']}() of {b['d']} does not list exactly the non-zero exponents in the order T L M I Th N J")
+                continue
             key = b['cls'] + ':' + json.dumps(b.get('d', b.get('a', b.get('s', ''))))
             chk.violation(key, f'{b}', b)
         if j['seen']['prints'] == 0 or j['seen']['cmps'] == 0 or j['seen']['ties'] == 0 or j['seen']['summary'] != 1:
             raise C.ToolError('vacuous Trace_Dims run: ' + str(j['seen']))
         chk.layer('A.box', box=f'[-{R},{R}]^7', tuples_printed=summ['prints'], comparisons=summ['cmps'],
-                  events_validated_by_tlc=len(evs), tie_events=j['seen']['ties'])
+                  events_validated_by_tlc=len(evs), tie_events=j['seen']['ties'], serialisations=summ.get('serials', 0),
+                  note='JSON / XML / YAML of every tuple of the box are parsed with a full-match grammar and compared with the non-zero exponents in order; no listed property constrains them, so a mismatch is reported as a NOTE only (the calls themselves are in scope of C20 through the sanitized re-run)')
     # ---- the specification's own order/print lemmas at small scope
     mc = C.run_tlc('MC_Dims', 'MC_Dims.cfg' if tier == 'quick' else 'MC_Dims_thorough.cfg', workers=8, timeout=900)
     chk.add_tlc('MC_Dims(order is strict total; print sound)', mc)
